@@ -106,7 +106,7 @@ def anytime(
     first_vertex = (first_bins, 0)
     stack: List[Tuple[BinsArray, int]] = [first_vertex]
     if use_set_of_seen_states:
-        seen_states = set(tuple(binner.sums(first_bins)))
+        seen_states = set()
 
     # For logging and profiling:
     complete_partitions_checked = 0      
@@ -199,11 +199,11 @@ def anytime(
                     times_lower_bound_activated += 1
                     continue
             if use_set_of_seen_states: 
-                if new_sums in seen_states:
+                if (depth+1, new_sums) in seen_states:
                     logger.debug("    State %s already seen", new_sums)
                     times_seen_state_skipped += 1
                     continue
-                seen_states.add(new_sums)   # should be after if use_lower_bound
+                seen_states.add((depth+1, new_sums))   # should be after if use_lower_bound
 
             new_vertex = (new_bins, depth + 1)
             stack.append(new_vertex)
